@@ -164,7 +164,37 @@ fn catalogue() -> Vec<AppCfg> {
     c.inputs = vec![InPlugin::GridSearch, InPlugin::LbNumeric { column: None }];
     c.outputs = out_full();
     v.push(c);
+    // 26: inject key / value beyond ASCII, a no-overwrite inject whose error message names a multi-byte key, grid search
+    let mut c = AppCfg::basic(Net::grid(3, 3));
+    c.inputs = vec![
+        InPlugin::Inject { key: "注入".into(), value: format!("{{\"名\": \"{}\"}}", utf8_text(3, 1, 300)), json_format: true, overwrite: None },
+        InPlugin::Inject { key: "blöcked😀".into(), value: utf8_text(4, 0, 270), json_format: false, overwrite: Some(false) },
+        InPlugin::GridSearch,
+        InPlugin::LbCategorical { column: Some("cat".into()), default: None },
+    ];
+    c.outputs = vec![OutPlugin::Summary];
+    v.push(c);
     v
+}
+
+/// text of about `bytes` bytes: `pad` ASCII letters, then scalars of UTF-8 width `width` (2: é, 3: 漢, 4: 😀,
+/// 5: 'e' + combining acute = 1 + 2 bytes, 6: a mix).  With pad = 0..width every byte offset inside the text is, for
+/// some pad, NOT a character boundary.
+fn utf8_text(width: usize, pad: usize, bytes: usize) -> String {
+    let mut s: String = "abcdefgh"[..pad.min(8)].to_string();
+    let mix = ["é", "漢", "😀", "e\u{301}", "ß", "한", "𝔘", "a"];
+    let mut i = 0;
+    while s.len() < bytes {
+        match width {
+            2 => s.push('é'),
+            3 => s.push('漢'),
+            4 => s.push('😀'),
+            5 => s.push_str("e\u{301}"),
+            _ => s.push_str(mix[i % mix.len()]),
+        }
+        i += 1;
+    }
+    s
 }
 
 fn has_grid(c: &AppCfg) -> bool {
@@ -331,6 +361,7 @@ impl<'a> Gen<'a> {
     }
     fn degenerate_grid(&mut self) -> Value {
         match self.r.below(12) {
+            0 if self.r.chance(1, 3) => json!(utf8_text(6, 1, 40)),
             0 => json!({}),
             1 => json!({"a": []}),
             2 => json!({"a": 5}),
@@ -351,7 +382,38 @@ impl<'a> Gen<'a> {
         let idf: Vec<&str> = if self.c.edge_oriented { vec!["origin_edge", "destination_edge"] } else { vec!["origin_vertex", "destination_vertex"] };
         let ids_matter = !matched(self.c);
         let n = if self.c.edge_oriented { self.ne() } else { self.nv() };
-        match self.r.below(13) {
+        match self.r.below(15) {
+            13 | 14 => {
+                // text beyond ASCII as a value, as a key, or as a replacement of an existing field
+                let around = *self.r.pick(&[8usize, 64, 128, 256, 512, 1024]);
+                let width = *self.r.pick(&[2usize, 3, 4, 5, 6]);
+                let t = utf8_text(width, self.r.below(5) as usize, around + self.r.below(12) as usize);
+                match self.r.below(4) {
+                    0 => {
+                        q.insert(format!("note{}", self.r.below(3)), json!(t));
+                    }
+                    1 => {
+                        q.insert(t, json!(self.r.range(0, 3)));
+                    }
+                    2 => {
+                        let keys: Vec<String> = q.keys().filter(|k| *k != "tag").cloned().collect();
+                        if !keys.is_empty() {
+                            let k = self.r.pick(&keys).clone();
+                            q.insert(k, json!(t));
+                        }
+                    }
+                    _ => {
+                        // first field of the object: the text starts early in every dump of the query
+                        let mut m = Map::new();
+                        m.insert("a_note".into(), json!(t));
+                        for (k, v) in q.iter() {
+                            m.insert(k.clone(), v.clone());
+                        }
+                        *q = m;
+                    }
+                }
+                ("utf8".into(), false)
+            }
             0 => {
                 // delete a field
                 let keys: Vec<String> = q.keys().filter(|k| *k != "tag").cloned().collect();
@@ -674,9 +736,9 @@ fn coq_pspec(p: &InPlugin, idx: usize, log: &[(usize, Value, Value, bool)]) -> S
         InPlugin::GridSearch => "PR.PGrid".into(),
         InPlugin::Inject { key, value, json_format, overwrite } => {
             let v: Value = if *json_format { serde_json::from_str(value).unwrap() } else { json!(value) };
-            format!("(PR.PInject {} {} {})", coq_string(key), coq_json(&v), coq_bool(overwrite.unwrap_or(true)))
+            format!("(PR.PInject {} {} {})", cs(key), cj(&v), coq_bool(overwrite.unwrap_or(true)))
         }
-        InPlugin::LbNumeric { column } => format!("(PR.PLbNumeric {})", coq_opt(column, |c| coq_string(c))),
+        InPlugin::LbNumeric { column } => format!("(PR.PLbNumeric {})", coq_opt(column, |c| cs(c))),
         _ => {
             let mut seen = BTreeMap::new();
             for (i, before, after, ok) in log {
@@ -685,7 +747,7 @@ fn coq_pspec(p: &InPlugin, idx: usize, log: &[(usize, Value, Value, bool)]) -> S
                 }
             }
             let entries: Vec<(String, (Value, bool))> = seen.into_iter().collect();
-            format!("(PR.POracle {})", coq_list(&entries, |(k, (a, ok))| format!("({}, ({}, {}))", coq_string(k), coq_json(a), coq_bool(*ok))))
+            format!("(PR.POracle {})", coq_list(&entries, |(k, (a, ok))| format!("({}, ({}, {}))", cs(k), cj(a), coq_bool(*ok))))
         }
     }
 }
@@ -703,10 +765,63 @@ fn show_pairs(p: &[(String, Value)]) -> String {
     format!("Ok {} | {}", p.len(), p.iter().map(|(c, r)| format!("{}:{}", c, show_json(r, true))).collect::<Vec<_>>().join(";"))
 }
 
+/// a string as a Gallina term; long runs of a repeated unit (<= 32 bytes) are written `PR.rep unit n`
+fn cs(s: &str) -> String {
+    if s.len() < 96 {
+        return coq_string(s);
+    }
+    let b = s.as_bytes();
+    let mut parts: Vec<String> = vec![];
+    let (mut lit_start, mut i) = (0usize, 0usize);
+    while i < b.len() {
+        let mut best: Option<(usize, usize)> = None; // (unit length, repeats)
+        if s.is_char_boundary(i) {
+            for l in 1..=32usize {
+                if i + 2 * l > b.len() || !s.is_char_boundary(i + l) {
+                    continue;
+                }
+                let mut n = 1;
+                while i + (n + 1) * l <= b.len() && b[i + n * l..i + (n + 1) * l] == b[i..i + l] {
+                    n += 1;
+                }
+                if n * l >= 64 && best.map(|(bl, bn)| n * l > bl * bn).unwrap_or(true) {
+                    best = Some((l, n));
+                }
+            }
+        }
+        match best {
+            Some((l, n)) => {
+                if lit_start < i {
+                    parts.push(coq_string(&s[lit_start..i]));
+                }
+                parts.push(format!("PR.rep {} {}", coq_string(&s[i..i + l]), coq_nat(n)));
+                i += l * n;
+                lit_start = i;
+            }
+            None => i += 1,
+        }
+    }
+    if lit_start < b.len() {
+        parts.push(coq_string(&s[lit_start..]));
+    }
+    format!("({})%string", parts.join(" ++ "))
+}
+/// verif_harness::coq_json with `cs` for strings and keys
+fn cj(v: &Value) -> String {
+    match v {
+        Value::String(s) => format!("(JStr {})", cs(s)),
+        Value::Array(a) => format!("(JArr {})", coq_list(a, cj)),
+        Value::Object(m) => format!("(JObj {})", coq_list(&m.iter().collect::<Vec<_>>(), |(k, v)| format!("({}, {})", cs(k), cj(v)))),
+        other => coq_json(other),
+    }
+}
 /// same function as PR.force_hash: the payload is always replaced by its hash
 fn force_hash_line(line: &str) -> String {
     let mut it = line.splitn(3, ' ');
     let (tag, id, payload) = (it.next().unwrap_or(""), it.next().unwrap_or(""), it.next().unwrap_or(""));
+    if !payload.starts_with("Ok ") {
+        return line.to_string(); // Panic / Hang / Err are plain text
+    }
     let mut h: u64 = 7;
     for b in payload.bytes() {
         h = (h.wrapping_mul(1000003).wrapping_add(b as u64)) & 0x7fff_ffff_ffff_ffff;
@@ -772,7 +887,7 @@ fn run_case(st: &mut Stream, apps: &mut Apps, case: &Case, timeout: u64) -> bool
     let (i_payload, observed) = match &outcome {
         RunOutcome::Ok(rs) => {
             let p = pairs_of(rs);
-            (show_pairs(&p), format!("(PR.OOk {})", coq_list(&p, |(c, r)| format!("({}, {})", coq_string(c), coq_json(r)))))
+            (show_pairs(&p), format!("(PR.OOk {})", coq_list(&p, |(c, r)| format!("({}, {})", coq_string(c), cj(r)))))
         }
         RunOutcome::Err(_) => ("Err".to_string(), "PR.OErr".to_string()),
         RunOutcome::Panic(_) => ("Panic".to_string(), "PR.OPanic".to_string()),
@@ -787,7 +902,7 @@ fn run_case(st: &mut Stream, apps: &mut Apps, case: &Case, timeout: u64) -> bool
         coq_nat(par_run),
         coq_bool(cfg.persist)
     );
-    let user_coq = coq_json(&case.user);
+    let user_coq = cj(&case.user);
     // model line
     let yens_k = match &cfg.alg {
         Alg::Yens { k, .. } => Some(*k),
@@ -818,7 +933,7 @@ fn run_case(st: &mut Stream, apps: &mut Apps, case: &Case, timeout: u64) -> bool
                     tbl.entry(show_json(&r, true)).or_insert(c == "ok");
                 }
                 let entries: Vec<(String, bool)> = tbl.into_iter().collect();
-                format!("PR.line_M {} {} {} {}", id, coq_cfg, coq_list(&entries, |(k, ok)| format!("({}, {})", coq_string(k), coq_bool(*ok))), user_coq)
+                format!("PR.line_M {} {} {} {}", id, coq_cfg, coq_list(&entries, |(k, ok)| format!("({}, {})", cs(k), coq_bool(*ok))), user_coq)
             }
             RunOutcome::Ok(_) | RunOutcome::Err(_) => {
                 // nothing to replay the searches from: every search is taken to succeed (its class is not observable here)
@@ -1032,6 +1147,78 @@ fn boundary(cat: &[AppCfg]) -> Vec<Case> {
                                       {"tag": "t1", "origin_vertex": 1, "destination_vertex": 2, "model_name": "Toyota_Camry", "query_weight_estimate": 1}]), &[], "vehicle_rates_combined"));
         }
     }
+    // ---- strings and KEYS beyond ASCII on every error path: 2-, 3-, 4-byte scalars and combining marks, long enough
+    //      (1100 bytes) that the offsets 64 / 128 / 255..257 / 512 / 1024 of the serialized and of the Debug form fall
+    //      inside the text, with 0..4 ASCII pad bytes so that each of them is a non-boundary for some pad
+    // (every family sees every (width, pad) combination; configurations and fields rotate with the combination)
+    for (wi, width) in [2usize, 3, 4, 5, 6].into_iter().enumerate() {
+        for pad in 0..=4usize {
+            let combo = wi * 5 + pad;
+            let rot = |l: &[usize], k: usize| -> Vec<usize> { (0..k).map(|i| l[(combo + i * 3) % l.len()]).collect() };
+            let t = utf8_text(width, pad, 1100);
+            let short = utf8_text(width, pad, 250 + pad);
+            let ok = |tag: &str| json!({"tag": tag, "origin_vertex": 1, "destination_vertex": 2, "w": 1, "cat": "a", "model_name": "Toyota_Camry"});
+            // the long text comes FIRST in the object (insertion order is kept) so that it starts near offset 20
+            let first_val = |rest: Value| { let mut m = Map::new(); m.insert("a_note".into(), json!(t.clone())); for (k, v) in rest.as_object().unwrap() { m.insert(k.clone(), v.clone()); } Value::Object(m) };
+            let first_key = |rest: Value| { let mut m = Map::new(); m.insert(t.clone(), json!(1)); for (k, v) in rest.as_object().unwrap() { m.insert(k.clone(), v.clone()); } Value::Object(m) };
+            let base = json!({"tag": "t0", "origin_vertex": 0, "destination_vertex": 8, "w": 1, "cat": "a", "model_name": "Toyota_Camry"});
+            // wrong-typed / degenerate grid sections (grid_search configurations incl. the UTF-8 inject one)
+            for cfg_id in if pad == 1 { vec![2usize, 26] } else { vec![[2usize, 5, 7][combo % 3]] } {
+                for sec in [json!(5), Value::Null, json!({"a": []}), json!(t.clone()), json!({t.clone(): [1, 2]}), json!({"a": [short.clone(), t.clone()]})] {
+                    for shape in 0..2 {
+                        let mut q = base.clone();
+                        q["grid_search"] = sec.clone();
+                        let q = if shape == 0 { first_val(q) } else { first_key(q) };
+                        v.push(mk(cfg_id, json!([q, ok("t1")]), &[], "utf8_grid_section"));
+                    }
+                }
+            }
+            // missing / ill-typed required fields, unknown names, with the text as value and as key
+            for cfg_id in rot(&[0usize, 1, 3, 4, 8, 14, 16, 18, 21, 26], 2) {
+                let mut q = base.clone();
+                q.as_object_mut().unwrap().remove("origin_vertex");
+                v.push(mk(cfg_id, json!([first_val(q.clone()), ok("t1")]), &[], "utf8_missing_field"));
+                v.push(mk(cfg_id, json!([first_key(q), ok("t1")]), &[], "utf8_missing_field"));
+                let mut q = base.clone();
+                q["origin_vertex"] = json!(t.clone());
+                q["destination_vertex"] = json!(short.clone());
+                v.push(mk(cfg_id, json!([q, ok("t1")]), &[], "utf8_ill_typed_field"));
+            }
+            for (field, val) in [("model_name", json!(t.clone())), ("model_name", json!(short.clone())), ("cat", json!(t.clone())), ("w", json!(t.clone())),
+                                 ("query_weight_estimate", json!(short.clone())), ("weights", json!({t.clone(): 1})), ("weights", json!({"distance": t.clone()})),
+                                 ("vehicle_rates", json!({"distance": {"type": t.clone()}})), ("vehicle_rates", json!({t.clone(): {"type": "raw"}})),
+                                 ("cost_aggregation", json!(t.clone())), ("state_features", json!({t.clone(): {"distance_unit": "miles", "initial": 0}})),
+                                 ("k", json!(short.clone())), ("weight_factor", json!(t.clone())), ("road_classes", json!([t.clone()])),
+                                 ("blöcked😀", json!(t.clone())), ("注入", json!(short.clone()))].into_iter().enumerate().filter(|(fi, _)| (fi + combo) % 2 == 0).map(|(_, x)| x) {
+                for cfg_id in rot(&[0usize, 5, 6, 7, 8, 16, 17, 22, 26, 26], 1) {
+                    let mut q = base.clone();
+                    q[field] = val.clone();
+                    v.push(mk(cfg_id, json!([q, ok("t1")]), &[], "utf8_unknown_name"));
+                }
+            }
+            // the query itself is such a text; a coordinate field holds one
+            for cfg_id in rot(&[0usize, 2, 26], 1) {
+                v.push(mk(cfg_id, json!([t.clone(), ok("t1"), [short.clone()]]), &[], "utf8_nonobject_query"));
+            }
+            for cfg_id in rot(&[18usize, 19, 22], 1) {
+                v.push(mk(cfg_id, json!([{"a_note": t.clone(), "tag": "t0", "origin_x": short.clone(), "origin_y": 39.7}, {"tag": "t1", "origin_x": -105.0, "origin_y": 39.7, "destination_x": -104.99, "destination_y": t.clone()}]), &[], "utf8_ill_typed_field"));
+            }
+        }
+    }
+    // lengths swept one byte at a time around the usual cut-off sizes (value first in the object)
+    for width in [2usize, 3, 4] {
+        for around in [64usize, 128, 256, 512, 1024] {
+            for d in 0..(2 * width + 2) {
+                let t = utf8_text(width, d % (width + 1), around - width - 1 + d);
+                let mut m = Map::new();
+                m.insert("n".into(), json!(t));
+                m.insert("tag".into(), json!("t0"));
+                m.insert("origin_vertex".into(), json!(0));
+                m.insert("grid_search".into(), json!(7));
+                v.push(mk(2, json!([Value::Object(m), {"tag": "t1", "origin_vertex": 1, "destination_vertex": 2}]), &[], "utf8_length_sweep"));
+            }
+        }
+    }
     // ---- run-configuration override
     for p in [1, 2, 7] {
         let mut c = mk(5, json!([{"tag": "t0", "origin_vertex": 0, "destination_vertex": 8, "query_weight_estimate": 3}, {"tag": "t1", "origin_vertex": 1, "destination_vertex": 7, "query_weight_estimate": 1},
@@ -1081,6 +1268,14 @@ fn pending_cases(cat: &[AppCfg], only: &str) -> Vec<Case> {
     // (every class reported so far was fixed in /repo and its families moved to the main stream)
     let _ = (&mk, only);
     v
+}
+
+fn gcd(a: usize, b: usize) -> usize {
+    if b == 0 {
+        a
+    } else {
+        gcd(b, a % b)
+    }
 }
 
 fn main() {
@@ -1179,19 +1374,24 @@ fn main() {
         }
     }
     if !stop {
-        for case in boundary(&cat) {
-            if run_case(&mut st, &mut apps, &case, timeout) {
-                stop = true;
-                break;
+        // deterministic families and random cases are generated first and then run in a fixed stride order: the
+        // driver cuts the stream into contiguous shards for coqc, and the long-text families would otherwise all
+        // land in the same few shards
+        let mut cases = boundary(&cat);
+        if !boundary_only {
+            let mut rng = Rng::new(a.seed);
+            while st.next_id() + cases.len() < a.n {
+                let mut r = rng.fork();
+                cases.push(gen_case(&mut r, &cat, &mut st));
             }
         }
-    }
-    if !boundary_only && !stop {
-        let mut rng = Rng::new(a.seed);
-        while st.next_id() < a.n {
-            let mut r = rng.fork();
-            let case = gen_case(&mut r, &cat, &mut st);
-            if run_case(&mut st, &mut apps, &case, timeout) {
+        let n = cases.len();
+        let mut stride = 7919usize;
+        while n > 0 && gcd(stride, n) != 1 {
+            stride += 2;
+        }
+        for i in 0..n {
+            if run_case(&mut st, &mut apps, &cases[(i * stride) % n], timeout) {
                 break;
             }
         }
